@@ -490,6 +490,37 @@ def evalTls (p : Pending) (glob : Oracle) (obsToks : List String) : String :=
   let head := s!"RES {p.prop} {p.id} eq={b eq} hm={b hm} hi={b hi} miss={b (!badTok.isEmpty)} crash={b (obsToks.contains "crash")}"
   if eq && hi && hm && badTok.isEmpty then head else head ++ " | " ++ showLog pm ++ " | " ++ showLog pi
 
+/-! language `qt`: the Lean sub-models of Qt value classes against Qt itself -/
+
+def evalQt (p : Pending) (obsToks : List String) : String :=
+  let showL (l : List Bytes) : String := if l.isEmpty then "-" else ",".intercalate (l.map hex)
+  let step (acc : HeaderMap × List String) (t : String) : HeaderMap × List String :=
+    let (m, out) := acc
+    match fields t with
+    | ["lower", x] => (m, out ++ ["b:" ++ hex (lower (unhex x))])
+    | ["trim", x] => (m, out ++ ["b:" ++ hex (trim (unhex x))])
+    | ["toll", x] => (m, out ++ [s!"i:{toLongLong (unhex x)}"])
+    | ["toint", x] => (m, out ++ [s!"i:{toIntQ (unhex x)}"])
+    | ["num", n] => (m, out ++ ["b:" ++ hex (intText (toInt n))])
+    | ["lt", a, c] => (m, out ++ [s!"i:{if HeaderMap.keyLt (unhex a) (unhex c) then 1 else 0}"])
+    | ["splitc", x, c] => (m, out ++ ["l:" ++ ",".intercalate ((splitChar (UInt8.ofNat (toNat c)) (unhex x)).map hex)])
+    | ["mins", k, v] => let m' := HeaderMap.insert (unhex k) (unhex v) m; (m', out ++ ["m:" ++ showPairs m'])
+    | ["mrep", k, v] => let m' := HeaderMap.replace (unhex k) (unhex v) m; (m', out ++ ["m:" ++ showPairs m'])
+    | ["mval", k] => (m, out ++ ["b:" ++ hex (HeaderMap.value (unhex k) m)])
+    | ["mvals", k] => (m, out ++ ["l:" ++ showL (HeaderMap.values (unhex k) m)])
+    | ["mcnt", k] => (m, out ++ [s!"i:{HeaderMap.count (unhex k) m}"])
+    | ["mhas", k] => (m, out ++ [s!"i:{if HeaderMap.contains (unhex k) m then 1 else 0}"])
+    | ["b64", x] => (m, out ++ ["b:" ++ hex (BasicAuth.fromBase64 (unhex x))])
+    | ["pct", x] => (m, out ++ ["b:" ++ hex (Fs.pctDecode (unhex x))])
+    | ["clean", x] => (m, out ++ ["b:" ++ hex (Fs.cleanPath (unhex x))])
+    | _ => (m, out ++ ["?"])
+  let model := (p.toks.foldl step ([], [])).2
+  let impl := obsToks.filter (· != "end")
+  let eq := model == impl
+  let b (x : Bool) := if x then "1" else "0"
+  let head := s!"RES {p.prop} {p.id} eq={b eq} hm=1 hi={b eq} miss=0 crash={b (obsToks.contains "crash")}"
+  if eq then head else head ++ " | " ++ " ".intercalate model ++ " | " ++ " ".intercalate impl
+
 partial def loop (h : IO.FS.Stream) (glob : Oracle) (cur : Pending) : IO Unit := do
   let line ← h.getLine
   if line.isEmpty then return ()
@@ -514,6 +545,7 @@ partial def loop (h : IO.FS.Stream) (glob : Oracle) (cur : Pending) : IO Unit :=
       | "proxy" => evalProxy cur glob rest
       | "life" => evalLife cur glob rest
       | "tls" => evalTls cur glob rest
+      | "qt" => evalQt cur rest
       | l => s!"RES {cur.prop} {cur.id} eq=0 hm=0 hi=0 miss=1 crash=0 | unknown language {l}"
     IO.println out
     loop h glob cur
